@@ -169,3 +169,23 @@ def programs_from_mech_histories(hists):
                 calls.append(setopt('mx', 1 if st['b'] else 0))
         progs.append({'calls': calls})
     return progs
+
+
+def programs_from_array_histories(hists):
+    """Behaviours of the Array machine (spec/ArraySim.tla): the initial Array is built from its data bits, then every
+    list operation of the history is performed on the real Array."""
+    progs = []
+    for n, h in enumerate(hists):
+        init = h['init']
+        calls = [{'op': 'anewdata', 'rid': 'a', 'sa': [init['dn']], 'ia': [init['dl'], n % 3],
+                  'xs': [{'k': 'lit', 'kind': ['Bits', 'BitArray', 'BitStream'][n % 3], 'v': init['v']}]}]
+        for c in h['calls']:
+            c = dict(c)
+            c.pop('tk', None)
+            c['drop'] = ['r*']
+            calls.append(c)
+            if len(calls) % 3 == 0:
+                calls.append({'op': 'atolist', 't': 'a'})
+        calls.append({'op': 'adata', 't': 'a'})
+        progs.append({'calls': calls})
+    return progs
